@@ -102,7 +102,7 @@ let do_decomp f =
     (match ob.ob_desync with None -> "-" | Some i -> string_of_int (int_of_nat i)));
   if tot <= 64 then Buffer.add_string buf (" data=" ^ hex_of_bytes data);
   (* second part: facts about the model's run that the check uses as premises (not compared) *)
-  Buffer.add_string buf (Printf.sprintf " | late=%d err=%d" (b2i ob.ob_late) (b2i ob.ob_err));
+  Buffer.add_string buf (Printf.sprintf " | late=%d err=%d tail=%d" (b2i ob.ob_late) (b2i ob.ob_err) (b2i (dz_tail_risk recs)));
   Buffer.contents buf
 
 let () = register "decomp" do_decomp
